@@ -103,6 +103,8 @@ def run(ctx):
             else:
                 ctx.fail('C13.1', em, a, 'f.%s is bound to `%s`' % (name, U(a.value)))
     ctx.floor('C13.1', 12)
+    slice_none(ctx)
+    index_space(ctx)
     slices(ctx)
     n0 = len(ctx.findings)
     emulator(ctx)
@@ -111,8 +113,6 @@ def run(ctx):
     from .c09 import _relabel
     _relabel(ctx, ('C09.5',), 'C13.3')
     delegation(ctx)
-    slice_none(ctx)
-    index_space(ctx)
 
 
 def index_space(ctx):
@@ -299,8 +299,11 @@ def _default_of(gi, name):
     """default expression assigned to `name` when the slice component is absent: `if name is None: name = E`,
     `name = E if <comp> is None else <comp>`, `name = <comp> or E` (C13.5 rejects the last form separately)."""
     for n in ast.walk(gi.node):
-        if isinstance(n, ast.If) and isinstance(n.test, ast.Compare) and len(n.test.ops) == 1 and \
-                isinstance(n.test.ops[0], ast.Is) and U(n.test.comparators[0]) == 'None' and U(n.test.left) == name:
+        isnone = isinstance(n, ast.If) and isinstance(n.test, ast.Compare) and len(n.test.ops) == 1 and \
+            isinstance(n.test.ops[0], ast.Is) and U(n.test.comparators[0]) == 'None' and U(n.test.left) == name
+        falsy = isinstance(n, ast.If) and isinstance(n.test, ast.UnaryOp) and isinstance(n.test.op, ast.Not) and \
+            U(n.test.operand) == name          # truthiness test: rejected by C13.5, but the default is still this one
+        if isnone or falsy:
             for st in n.body:
                 if isinstance(st, ast.Assign) and U(st.targets[0]) == name:
                     return st, st.value
